@@ -130,13 +130,13 @@ def run_family(part, unit):
     c1 = [math.sin(1 + 0.7 * k) for k in range(120)]
     c2 = [math.cos(2 + 1.3 * k) / (1 + k % 5) for k in range(120)]
     T = np.array([np.asarray(v, dtype=float) for v in cls(coeffs=[1.0] * 120).terms(rr, pp)])
-    for (a, b) in ((1.0, 0.0), (0.0, 1.0), (2.5, -0.75)):
+    for (a, b) in ((1.0, 0.0), (0.0, 1.0), (2.5, -0.75), (3e-9, 0.0), (1e-9, -2e-9), (4e6, 1e6)):     # amplitudes over 15 decades
         c = [a * x + b * y for x, y in zip(c1, c2)]
         got = np.asarray(cls(coeffs=c).poly(rr, pp), dtype=float)
         expv = np.array(c) @ T
         part.evals += 1
         part.transitions += 1
-        if np.max(np.abs(got - expv)) > 1e-9 * max(1.0, np.max(np.abs(expv))):
+        if np.max(np.abs(got - expv)) > 1e-9 * max(abs(a) + abs(b), np.max(np.abs(expv))):
             part.violation(PID, 'poly-linear', f'Zernike{fam.capitalize()}.poly', f'family={fam}', dict(a=a, b=b),
                            observed=got, expected=expv, tol=1e-9)
     for N in (1, 5, 36, 37, 120):
@@ -215,8 +215,8 @@ def run_fitlinear(part, unit):
         if c3.shape != exp.shape or np.max(np.abs(c3 - exp)) > 1e-7 * max(1.0, np.max(np.abs(exp))):
             part.violation(PID, 'fit-linear-in-data', 'ZernikeFit', f'family={fam},N={N}', dict(set=sname), observed=c3[:6],
                            expected=exp[:6], tol=1e-7)
-        # homogeneity over six decades of amplitude (data in waves, in nanometres, in metres): residuals far above and far below 1
-        for amp in (1e3, 1e-3):
+        # homogeneity over twelve decades of amplitude (data in waves, in nanometres, in metres): residuals far above and far below 1
+        for amp in (1e3, 1e-3, 1e-9):
             f4 = ZernikeFit(x.copy(), y.copy(), amp * z1, fam, N)
             part.transitions += 1
             c4 = np.asarray(f4.coeffs, dtype=float)
